@@ -38,6 +38,8 @@ mod parser;
 mod variables;
 
 pub use execution::error::ExecutionError;
+#[cfg(feature = "tsg-verif")]
+pub use execution::error::{Context, StatementContext};
 pub use execution::CancellationError;
 pub use execution::CancellationFlag;
 pub use execution::ExecutionConfig;
